@@ -182,6 +182,21 @@ def routeOK (r : Route) : Bool :=
 
 def flowOK (f : Flow) : Bool := f.src != .other
 
+/-- No place in the start-up code may leave the auth module nil while requests
+are served, and the checked assignment from `initUsers` must be there. -/
+def authFactOK (f : AuthFact) : Bool := f.kind != .bad
+
+/-- "Once an administrator account exists" the gate is on whatever the state of
+the session store: start-up may stop, it may not go on with the gate open.
+`started`/`authNil` are what start-up did, `probe` the answer to a protected
+request without credentials afterwards. -/
+def startCheck (usersConfigured started : Bool) (probe : Option Obs) : Option String :=
+  if usersConfigured && started then
+    match probe with
+    | some o => if allowedDenial o then none else some "C11.gate-open-after-startup"
+    | none => some "C11.gate-open-after-startup"
+  else none
+
 /-- The declared method of whatever served the request. -/
 def Served.declared : Served → Option Bytes
   | .route r => some r.declared
